@@ -85,7 +85,10 @@ func c03Kinds(n int) []int {
 }
 
 func VerifC03TMBatch2() { vcfg("preempt", 2); c03TM(2, false, c03Kinds(2), false) }
-func VerifC03TMBatch3() { vcfg("preempt", 2); c03TM(3, false, []int{0, vchoose("kind", 3), vchoose("kind", 3), 0}, false) }
+func VerifC03TMBatch3() {
+	vcfg("preempt", 2)
+	c03TM(3, false, []int{0, vchoose("kind", 3), vchoose("kind", 3), 0}, false)
+}
 func VerifC03TMEager2() { vcfg("preempt", 2); c03TM(2, true, c03Kinds(2), vchoose("late", 2) == 1) }
 func VerifC03TMEager3() { vcfg("preempt", 2); c03TM(3, true, []int{0, vchoose("kind", 3), 0, 0}, true) }
 
